@@ -9,7 +9,7 @@ sys.path.insert(0, HERE)
 from cxa.index import Index  # noqa: E402
 from cxa.report import run_property  # noqa: E402
 
-ALL = [f"C{i:02d}" for i in range(1, 21) if i != 7]
+ALL = [f"C{i:02d}" for i in range(1, 21)]
 out = {"instances": {}}
 for p in ALL:
     res = run_property(p, Index(os.environ.get("CXA_REPO", "/repo")))
